@@ -25,10 +25,12 @@ ALLOWED_AXIOMS = {"propext", "Classical.choice", "Quot.sound"}
 
 
 def seed() -> int:
+    v = os.environ.get("VERIF_SEED", "0")
     try:
-        return int(os.environ.get("VERIF_SEED", "0"))
+        return int(v)
     except ValueError:
-        return 0
+        # any other text is a seed too (its hash), never silently seed 0
+        return int.from_bytes(hashlib.sha256(v.encode()).digest()[:6], "big")
 
 
 def rng_for(*names) -> random.Random:
